@@ -215,14 +215,23 @@ fn has_offset(a: &dyn Array) -> bool {
 /// true iff some struct array (at any depth) is non-empty and entirely null: lance-arrow documents
 /// such structs as "placeholders" whose validity is dropped by merge
 fn has_all_null_struct(a: &dyn Array) -> bool {
+    // looks only at the *referenced* child ranges (merge works on trimmed values)
+    if a.len() > 0 && a.null_count() == a.len() && matches!(a.data_type(), DataType::Struct(_) | DataType::List(_) | DataType::LargeList(_) | DataType::FixedSizeList(_, _)) {
+        return true;
+    }
     match a.data_type() {
-        DataType::Struct(_) => {
-            let s = a.as_any().downcast_ref::<StructArray>().unwrap();
-            (s.len() > 0 && s.null_count() == s.len()) || s.columns().iter().any(|c| has_all_null_struct(c.as_ref()))
+        DataType::Struct(_) => a.as_any().downcast_ref::<StructArray>().unwrap().columns().iter().any(|c| has_all_null_struct(c.as_ref())),
+        DataType::List(_) => {
+            let l = a.as_any().downcast_ref::<ListArray>().unwrap();
+            let (x, y) = (l.offsets()[0] as usize, l.offsets()[l.len()] as usize);
+            has_all_null_struct(l.values().slice(x, y - x).as_ref())
         }
-        DataType::List(_) => has_all_null_struct(a.as_any().downcast_ref::<ListArray>().unwrap().values().as_ref()) || (a.len() > 0 && a.null_count() == a.len()),
-        DataType::LargeList(_) => has_all_null_struct(a.as_any().downcast_ref::<LargeListArray>().unwrap().values().as_ref()) || (a.len() > 0 && a.null_count() == a.len()),
-        DataType::FixedSizeList(_, _) => has_all_null_struct(a.as_any().downcast_ref::<FixedSizeListArray>().unwrap().values().as_ref()) || (a.len() > 0 && a.null_count() == a.len()),
+        DataType::LargeList(_) => {
+            let l = a.as_any().downcast_ref::<LargeListArray>().unwrap();
+            let (x, y) = (l.offsets()[0] as usize, l.offsets()[l.len()] as usize);
+            has_all_null_struct(l.values().slice(x, y - x).as_ref())
+        }
+        DataType::FixedSizeList(_, _) => has_all_null_struct(a.as_any().downcast_ref::<FixedSizeListArray>().unwrap().values().as_ref()),
         _ => false,
     }
 }
@@ -586,7 +595,7 @@ fn check_merge(cx: &Ctx, rng: &mut Rng, batch: &RecordBatch) {
                     uniq.sort();
                     uniq.dedup();
                     let cls = if uniq.len() != names.len() || got.iter().any(has_duplicate_fields) { "duplicate-column" } else if m.num_columns() != want.first().map(|c| if let Cell::Struct(k) = c { k.len() } else { 0 }).unwrap_or(m.num_columns()) { "columns" } else { "values" };
-                    let cls = if cls == "duplicate-column" { cls.to_string() } else { format!("{cls}{pre}") };
+                    let cls = if cls == "duplicate-column" { cls.to_string() } else { format!("values{pre}") };
                     cx.bad(&format!("merge-{cls}"), "merge result differs from the name-based merge model", json!({"inputs": desc, "row": pos, "expected": want.get(pos).map(|c| c.render()), "got": got.get(pos).map(|c| c.render()), "output_columns": names}));
                 } else {
                     cx.report.count("merges_compared", 1);
@@ -841,6 +850,11 @@ fn one_case(report: &Report, seed: u64, case: u64, corrupt: bool) {
     }
     step("json", &mut || check_json(&cx, &mut rng, corrupt));
     let _ = before;
+    if case < 4 && !corrupt {
+        report.sample(json!({"case": case, "rows": batch.num_rows(), "sliced_offset": off, "no_physical_offsets": plain,
+            "columns": batch.schema().fields().iter().map(|f| format!("{}: {}", f.name(), f.data_type())).collect::<Vec<_>>(),
+            "first_row": batch_cells(&batch).first().map(|r| Cell::Struct(r.clone()).render())}));
+    }
     let sig = format!("{}|{}|{}", batch.schema().fields().iter().map(|f| type_class(f.data_type())).collect::<Vec<_>>().join(","), (n as f64 + 1.0).log2() as u32, off > 0);
     report.case(if n > 1 { Some(fnv(sig.as_bytes())) } else { None });
 }
@@ -873,7 +887,7 @@ pub fn run(args: &Args) -> i32 {
         return report.finish();
     }
     let threads = crate::quiet::threads();
-    let n_cases: u64 = args.tier.pick(6000, 300_000);
+    let n_cases: u64 = args.tier.pick(40_000, 2_000_000);
     let next = AtomicU64::new(0);
     std::thread::scope(|s| {
         for _ in 0..threads {
